@@ -104,7 +104,10 @@ def shared_entry_projects(st, pat, label, old, new, fmt):
             # look-alike files that the glob `src/*.txt` does NOT name: one level further down, next to it with another suffix, in a
             # sibling directory, and a hidden one
             twin = fx.render_old(old).encode("utf-8")
-            others = {"src/deep/x.txt": twin, "src/deep/er/x.txt": twin, "src/x.txt.bak": twin, "src2/x.txt": twin, "src/.x.txt.swp": twin, "x.txt": twin}
+            others = {"src/deep/x.txt": twin, "src/deep/er/x.txt": twin, "src/x.txt.bak": twin, "src2/x.txt": twin, "src/.x.txt.swp": twin, "x.txt": twin,
+                      # names a careless "write to a temporary file, then rename" would use
+                      "src/x.txt.tmp": twin, "src/y.txt.tmp": b"keep me\n", "src/x.txt~": twin, "src/.x.txt.tmp": twin, "src/x.txt.new": twin, "src/x.txt.orig": twin,
+                      fmt + ".tmp": b"# not the config\n", fmt + "~": b"# not the config\n", fmt + ".bak": b"# not the config\n"}
             c03.run_project(st, pat, label, old, new, fmt, f"shared-entry:{a.pid}+{b.pid}:{order}", "glob-entry-shared-by-several-files", [fx, fy, fz], ents, False,
                             want=("bytes", "occurrence"), prefix="C04", extra_files=others)
         done += 1
